@@ -38,7 +38,7 @@ func (k key) real() model.ConfigKey {
 	return model.ConfigKey{Kind: k.Kind, Namespace: nsNames[k.Ns], Name: fmt.Sprintf("n%d", k.Name)}
 }
 func (k key) coq() string {
-	return vlib.Rec("kk", "K_"+k.Kind.String(), "kns", vlib.NI(k.Ns), "kname", vlib.NI(k.Name))
+	return vlib.App("ky", "K_"+k.Kind.String(), vlib.NI(k.Ns), vlib.NI(k.Name))
 }
 func keyOf(c model.ConfigKey) key {
 	ns := 0
@@ -100,7 +100,7 @@ func mkProxy(p proxyIn) *model.Proxy {
 	return px
 }
 func proxyCoq(p proxyIn) string {
-	return vlib.Rec("ptype", ntNames[p.Type], "cfg_ns", "1%N", "is_ew", vlib.B(p.EW && p.Type == model.Waypoint), "gw_changed", vlib.B(p.GwChanged))
+	return vlib.App("pxe", ntNames[p.Type], "1%N", vlib.B(p.EW && p.Type == model.Waypoint), vlib.B(p.GwChanged))
 }
 
 func mergeEvents(evs []event, forced, wp bool, useCopy bool) *model.PushRequest {
@@ -134,7 +134,7 @@ func mergeEvents(evs []event, forced, wp bool, useCopy bool) *model.PushRequest 
 
 func eventsCoq(evs []event) string {
 	return vlib.ListOf(evs, func(e event) string {
-		return vlib.Rec("ev_keys", keysCoq(e.Keys), "ev_reason", reasonNames[e.Reason])
+		return vlib.App("ev", keysCoq(e.Keys), reasonNames[e.Reason])
 	})
 }
 
